@@ -48,9 +48,9 @@ PROPS = {
                          "System", "Network", "_per_usage_pattern")(j),
                 obl=ALL_OBL, bounded="c02", level="other", design="4 C02",
                 technique="contracts: footprint = energy x the carbon intensity that applies (per usage pattern country for the network, nested ghost folds), fabrication formula, system total = every server, storage, network and usage pattern once (System.update_total_footprint); the derived look-ups those contracts iterate (System.servers / storages / networks, Network.jobs, ServerBase.jobs, Storage.jobs, JobBase.usage_patterns ... 22 properties) proved from their real source to list exactly the objects of their defining relation, each once; bounded twin over sharing topologies"),
-    "C10": dict(jobs=lambda j: j.startswith("update:") or j == "avg", obl=lambda o: o["kind"] in ("post", "pre", "libpre") and "cover" not in o["name"],
+    "C10": dict(jobs=lambda j: j.startswith("update:") or j == "avg" or j.startswith("units:") or (j.startswith("explainable:") and j.endswith((".__eq__", ".to", ".__lt__", ".__gt__"))), obl=lambda o: o["kind"] in ("post", "pre", "libpre", "units", "frame") and "cover" not in o["name"],
                 bounded="c10", level="proof", design="4 C12/C10",
-                technique="every contract is stated on physical (base-unit) values and proved with the unit conversion factor of every input left symbolic (> 0): unit independence by construction; bare-magnitude reads fail the proof unless preceded by .to(<literal unit>)"),
+                technique="every contract is stated on physical (base-unit) values and proved with the unit conversion factor of every input left symbolic (> 0): unit independence by construction; bare-magnitude reads fail the proof unless preceded by .to(<literal unit>); equality / ordering / conversion operators compare and convert physical values (an edit to the same number in another unit is a change)"),
     "C12": dict(jobs=lambda j: j.startswith("lemma:C12") or upd("update_instances_energy", "update_instances_fabrication_footprint", "update_energy_footprint", "update_devices_",
                          "Network", "update_hour_by_hour", "update_nb_usage_journeys")(j), obl=ALL_OBL, bounded="c12", level="proof", design="4 C12/C10",
                 technique="homogeneity lemmas over the functional specifications the update rules are proved equal to (z3), plus the proofs of those equalities"),
